@@ -450,8 +450,19 @@ func runC14(o *opts) (*summary, error) {
 			return int(r.(types.TaskType)), nil
 		}), "text-tasktype")
 	}
+	// (0..20, and numbers that are a task type only after being cut down to a byte, a short or a word)
+	ttNumbers := []string{}
 	for k := 0; k <= 20; k++ {
-		s := fmt.Sprint(k)
+		ttNumbers = append(ttNumbers, fmt.Sprint(k))
+	}
+	for _, base := range []uint64{256, 512, 65536, 131072, 1 << 32, 1 << 40} {
+		for _, low := range []uint64{0, 1, 2, 7, 13, 14} {
+			ttNumbers = append(ttNumbers, fmt.Sprint(base+low))
+		}
+	}
+	ttNumbers = append(ttNumbers, "255", "1000", "18446744073709551617", "-1", "-243")
+	for _, s := range ttNumbers {
+		s := s
 		put(textEv("tasktype", "TaskType.UnmarshalJSON(number)", s, func() (any, error) {
 			var v types.TaskType
 			err := v.UnmarshalJSON([]byte(s))
